@@ -1,6 +1,7 @@
 package crypto
 
 import (
+	"encoding/binary"
 	"slices"
 
 	"github.com/relab/hotstuff"
@@ -32,7 +33,11 @@ func NewMultiSorted[T Signature](sigs ...T) Multi[T] {
 func (sig Multi[T]) ToBytes() []byte {
 	var b []byte
 	for _, signature := range sig {
-		b = append(b, signature.ToBytes()...)
+		// each signature is preceded by its length: the same bytes divided differently among
+		// the signers are a different multi-signature and must not look the same
+		part := signature.ToBytes()
+		b = binary.LittleEndian.AppendUint32(b, uint32(len(part)))
+		b = append(b, part...)
 	}
 	return b
 }
